@@ -1667,8 +1667,12 @@ func (h *ResponseHeader) SetCookie(cookie *Cookie) {
 // SetCookie sets 'key: value' cookies.
 func (h *RequestHeader) SetCookie(key, value string) {
 	h.collectCookies()
+	// ';' separates cookies inside a Cookie header, so it must not
+	// appear in the key or the value.
 	h.bufK = initHeaderValueString(h.bufK, key)
+	h.bufK = removeSemicolons(h.bufK)
 	h.bufV = initHeaderValueString(h.bufV, value)
+	h.bufV = removeSemicolons(h.bufV)
 	h.cookies = setArgBytes(h.cookies, h.bufK, h.bufV, argsHasValue)
 }
 
